@@ -1,5 +1,6 @@
 import NemoVerif.Drive.Common
 import NemoVerif.Models.Conflict
+import NemoVerif.Models.ConflictRound
 import NemoVerif.Generated.C04
 
 namespace NemoVerif.Drive.C05
@@ -46,8 +47,26 @@ def fateStr : Fate → String
 
 def natsJson (l : List Nat) : Json := Json.arr (l.map (fun n => Json.num (JsonNumber.fromNat n))).toArray
 
+def entryOfJson (j : Json) : Except String ConflictRound.Entry := do
+  let a ← j.getArr?
+  let tag ← (a[0]?.getD Json.null).getStr?
+  match tag, a.toList.drop 1 with
+  | "ev", [n, hs] => pure (.ev (← n.getNat?) (← natArr hs))
+  | "merge", [m, n, hs] => pure (.merge (← natArr m) (← n.getNat?) (← natArr hs))
+  | "res", [al, n, adv] => pure (.res (← natArr al) (← n.getNat?) (← natArr adv))
+  | "adv", [n, hs] => pure (.adv (← n.getNat?) (← natArr hs))
+  | _, _ => throw "bad script entry"
+
 def handle (op : String) (j : Json) : Except String Json := do
   match op with
+  | "round" =>
+    -- the main loop of run_to_completion (ConflictRound.run) on the recorded outputs of the real functions
+    let script ← (← (← j.getObjVal? "script").getArr?).toList.mapM entryOfJson
+    let fuel ← (← j.getObjVal? "fuel").getNat?
+    let r := ConflictRound.run ConflictRound.scriptWorld fuel { rest := script }
+    pure (Json.mkObj [
+      ("calls", Json.arr (r.1.map (fun c => Json.arr #[Json.num (JsonNumber.fromNat c.queue), natsJson c.input, natsJson c.advancing])).toArray),
+      ("ok", Json.bool r.2.2), ("bad", Json.bool r.2.1.bad), ("rest", Json.num (JsonNumber.fromNat r.2.1.rest.length))])
   | "resolve" =>
     let one ← (← j.getObjVal? "one").getInt?
     let hs ← (← (← j.getObjVal? "heads").getArr?).toList.mapM headOfJson
